@@ -507,3 +507,380 @@ Section Final.
       destruct (single_final_spec g tg fg r Ef) as [_ [B [_ D]]]. exists fg. auto.
   Qed.
 End Final.
+
+(* ---------------------------------------------------------------------------------- *)
+(* reflection: the executable proposer hypotheses imply the Prop ones                  *)
+(* ---------------------------------------------------------------------------------- *)
+Section Reflect.
+  Variable sp : space.
+  Variable pb : nat -> string -> string -> value -> bool.
+  Let P := fun i nm k v => pb i nm k v = true.
+
+  Lemma forallb_id_mapi {A} (f : nat -> A -> bool) l :
+    forallb (fun x => x) (mapi f l) = true -> forall i a, nth_error l i = Some a -> f i a = true.
+  Proof.
+    intros H i a Hn. rewrite forallb_forall in H. apply H.
+    apply nth_error_In with (n := i). rewrite mapi_nth, Hn. reflexivity.
+  Qed.
+
+  Lemma dict_ok_graph_refl g d : dict_ok_graph_b pb g d = true -> dict_ok_graph P g d.
+  Proof.
+    unfold dict_ok_graph_b, dict_ok_graph. intros H lab v Hin Hv i n Hn Hp.
+    rewrite forallb_forall in H. specialize (H _ Hin). simpl in H.
+    apply orb_true_iff in H. destruct H as [H|H]; [destruct v; try discriminate; contradiction|].
+    pose proof (forallb_id_mapi _ _ H i n Hn) as Q. simpl in Q. rewrite Hp in Q. exact Q.
+  Qed.
+
+  Lemma dict_ok_node_refl g i d : dict_ok_node_b pb g i d = true -> dict_ok_node P g i d.
+  Proof.
+    unfold dict_ok_node_b, dict_ok_node. intros H n Hn lab v Hin Hv. rewrite Hn in H.
+    rewrite forallb_forall in H. specialize (H _ Hin). simpl in H.
+    apply orb_true_iff in H. destruct H as [H|H]; [destruct v; try discriminate; contradiction|exact H].
+  Qed.
+
+  Lemma Forall_forallb {A} (f : A -> bool) (Q : A -> Prop) l :
+    (forall a, f a = true -> Q a) -> forallb f l = true -> Forall Q l.
+  Proof. intros W H. rewrite forallb_forall in H. apply Forall_forall. auto. Qed.
+
+  Lemma seq_ok_refl g order : forall steps, seq_ok_b sp pb g order steps = true -> seq_ok sp P g order steps.
+  Proof.
+    induction order as [|i order IH]; intros steps; simpl; [trivial|].
+    destruct (nth_error g i) as [n|]; [|trivial].
+    destruct (tunable sp n); [|apply IH].
+    destruct steps as [|s steps]; [trivial|].
+    intros H. apply andb_true_iff in H. destruct H as [H H3]. apply andb_true_iff in H. destruct H as [H1 H2].
+    split; [|split].
+    - eapply Forall_forallb; [|exact H1]. intros a. apply dict_ok_node_refl.
+    - now apply dict_ok_node_refl.
+    - now apply IH.
+  Qed.
+
+  Lemma proposer_ok_refl cfg g p :
+    proposer_ok_b sp pb (c_kind cfg) g p = true -> proposer_ok sp cfg P g p.
+  Proof.
+    unfold proposer_ok_b, proposer_ok. destruct (c_kind cfg); try apply seq_ok_refl;
+      (intros H; apply andb_true_iff in H; destruct H as [H H3]; apply andb_true_iff in H; destruct H as [H1 H2];
+       split; [|split];
+       [eapply Forall_forallb; [|exact H1]; intros a; apply dict_ok_graph_refl
+       |intros d Hd; rewrite Hd in H2; now apply dict_ok_graph_refl
+       |eapply Forall_forallb; [|exact H3]; intros a; apply dict_ok_graph_refl]).
+  Qed.
+End Reflect.
+
+(* ---------------------------------------------------------------------------------- *)
+(* the C19 theorems                                                                    *)
+(* ---------------------------------------------------------------------------------- *)
+Lemma same_length_skel (g : graph) : forall g' : graph,
+  List.length g' = List.length g ->
+  (forall i n n', nth_error g i = Some n -> nth_error g' i = Some n' -> skel n' = skel n) ->
+  map skel g' = map skel g.
+Proof.
+  induction g as [|n g IH]; intros [|n' g'] L H; simpl in *; try discriminate; [reflexivity|].
+  f_equal.
+  - apply (H 0%nat); reflexivity.
+  - apply IH; [lia|]. intros i a a' H1 H2. apply (H (S i)); assumption.
+Qed.
+
+Lemma evolves_skel P g g' : evolves P g g' -> map skel g' = map skel g.
+Proof.
+  intros [L H]. apply same_length_skel; [exact L|]. intros i n n' H1 H2. now destruct (H i n n' H1 H2).
+Qed.
+
+Section Theorems.
+  Variable obj : graph -> fitness.
+  Variable sp : space.
+  Variable cfg : config.
+
+  Notation gmv := (gmv obj).
+  Notation tune := (tune obj sp cfg).
+
+  Definition PTrue : nat -> string -> string -> value -> Prop := fun _ _ _ _ => True.
+
+  Lemma seq_ok_true g order : forall steps, seq_ok sp PTrue g order steps.
+  Proof.
+    induction order as [|i order IH]; intros steps; simpl; [trivial|].
+    destruct (nth_error g i); [|trivial]. destruct (tunable sp n); [|apply IH].
+    destruct steps; [trivial|]. split; [|split; [|apply IH]].
+    - apply Forall_forall. intros d _ n' _ lab v _ _. exact I.
+    - intros n' _ lab v _ _. exact I.
+  Qed.
+
+  Lemma proposer_ok_true g p : proposer_ok sp cfg PTrue g p.
+  Proof.
+    unfold proposer_ok. destruct (c_kind cfg); try apply seq_ok_true;
+      (split; [|split]; [apply Forall_forall; intros d _|intros d _|apply Forall_forall; intros d _];
+       intros lab v _ _ i n _ _; exact I).
+  Qed.
+
+  (* 1. the returned graphs have the nodes (uids, in the order of graph.nodes), names and edges of the input *)
+  Theorem structure_preserved p g o :
+    tune p g = Ok o -> Forall (fun fg => map skel fg = map skel g) (out_graphs o).
+  Proof.
+    intros H. pose proof (tune_evolves obj sp cfg PTrue p g o (proposer_ok_true g p) H) as E.
+    eapply Forall_impl; [|exact E]. intros fg. apply evolves_skel.
+  Qed.
+
+  Definition PSpace : nat -> string -> string -> value -> Prop := fun _ nm k _ => in_space sp nm k = true.
+
+  (* 2. parameters that are not in the search space of the node's operation are untouched *)
+  Theorem outside_space_untouched p g o :
+    proposer_ok sp cfg PSpace g p -> tune p g = Ok o ->
+    forall fg, In fg (out_graphs o) ->
+    forall i n n', nth_error g i = Some n -> nth_error fg i = Some n' ->
+    forall k, in_space sp (name n) k = false -> dget (params n') k = dget (params n) k.
+  Proof.
+    intros Hok H fg Hin i n n' H1 H2 k Hk.
+    pose proof (tune_evolves obj sp cfg PSpace p g o Hok H) as E. rewrite Forall_forall in E.
+    destruct (E fg Hin) as [_ E']. destruct (E' i n n' H1 H2) as [_ Hd].
+    destruct (Hd k) as [Q|[v [_ Q]]]; [exact Q|]. unfold PSpace in Q. congruence.
+  Qed.
+
+  Definition PRange : nat -> string -> string -> value -> Prop :=
+    fun _ nm k v => exists ty, space_type sp nm k = Some ty /\ in_range ty v = true.
+
+  (* 6. if the library proposes values inside the declared ranges, every parameter of the result
+        either keeps its input value or lies in the declared range of a search-space parameter *)
+  Theorem in_range_if_proposer_in_range p g o :
+    proposer_ok sp cfg PRange g p -> tune p g = Ok o ->
+    forall fg, In fg (out_graphs o) ->
+    forall i n n', nth_error g i = Some n -> nth_error fg i = Some n' ->
+    forall k, dget (params n') k = dget (params n) k \/
+              exists v ty, dget (params n') k = Some v /\ space_type sp (name n) k = Some ty /\ in_range ty v = true.
+  Proof.
+    intros Hok H fg Hin i n n' H1 H2 k.
+    pose proof (tune_evolves obj sp cfg PRange p g o Hok H) as E. rewrite Forall_forall in E.
+    destruct (E fg Hin) as [_ E']. destruct (E' i n n' H1 H2) as [_ Hd].
+    destruct (Hd k) as [Q|[v [Q1 [ty [Q2 Q3]]]]]; [now left|right; eauto].
+  Qed.
+
+  (* executable hypotheses *)
+  Lemma labels_in_space_sound g p :
+    labels_in_space_b sp (c_kind cfg) g p = true -> proposer_ok sp cfg PSpace g p.
+  Proof. apply (proposer_ok_refl sp (pb_space sp)). Qed.
+
+  Lemma proposals_in_range_sound g p :
+    proposals_in_range_b sp (c_kind cfg) g p = true -> proposer_ok sp cfg PRange g p.
+  Proof.
+    intros H. pose proof (proposer_ok_refl sp (pb_range sp) cfg g p H) as R.
+    assert (W : forall i nm k v, pb_range sp i nm k v = true -> PRange i nm k v).
+    { unfold pb_range, PRange. intros i nm k v Q. destruct (space_type sp nm k) as [ty|]; [eauto|discriminate]. }
+    clear H. revert R. unfold proposer_ok.
+    assert (Wg : forall d, dict_ok_graph (fun i nm k v => pb_range sp i nm k v = true) g d -> dict_ok_graph PRange g d).
+    { intros d Hd lab v A B i n C D. apply W. eapply Hd; eauto. }
+    assert (Wn : forall i d, dict_ok_node (fun i nm k v => pb_range sp i nm k v = true) g i d -> dict_ok_node PRange g i d).
+    { intros i d Hd n A lab v B C. apply W. eapply Hd; eauto. }
+    destruct (c_kind cfg).
+    - intros [A [B C]]. split; [|split]; [eapply Forall_impl; [|exact A]; auto|intros d Hd; auto|eapply Forall_impl; [|exact C]; auto].
+    - generalize (p_steps p). generalize (nodes_order inverse_node_order (List.length g)).
+      intros order. induction order as [|i order IH]; intros steps; simpl; [trivial|].
+      destruct (nth_error g i); [|trivial]. destruct (tunable sp n); [|apply IH].
+      destruct steps; [trivial|]. intros [A [B C]]. split; [|split]; [eapply Forall_impl; [|exact A]; auto|auto|auto].
+    - intros [A [B C]]. split; [|split]; [eapply Forall_impl; [|exact A]; auto|intros d Hd; auto|eapply Forall_impl; [|exact C]; auto].
+    - intros [A [B C]]. split; [|split]; [eapply Forall_impl; [|exact A]; auto|intros d Hd; auto|eapply Forall_impl; [|exact C]; auto].
+  Qed.
+
+  (* 3. never worse *)
+  Theorem never_worse_single p g o :
+    0 <= c_dev cfg -> tune p g = Ok o -> out_multi o = false ->
+    exists fg, out_graphs o = [fg] /\ metric_le (gmv fg) (gmv g) = true.
+  Proof.
+    intros Hd H Hm. destruct (tune_shape obj sp cfg p g o H) as [_ S]. rewrite Hm in S.
+    destruct S as [fg [A [_ C]]]. exists fg. auto.
+  Qed.
+
+  Theorem never_dominated_multi p g o :
+    tune p g = Ok o -> out_multi o = true ->
+    exists iv, gmv g = MVec iv /\ out_graphs o <> [] /\
+    Forall (fun fg => exists ov, gmv fg = MVec ov /\ Fitness.dominates_loop false iv ov = false) (out_graphs o).
+  Proof.
+    intros H Hm. destruct (tune_shape obj sp cfg p g o H) as [_ S]. rewrite Hm in S.
+    destruct S as [iv [A [B [_ D]]]]. exists iv. auto.
+  Qed.
+
+  (* 4. the reported metric is the objective of the returned graph(s); init_metric that of the input *)
+  Theorem reported_metric_consistent p g o :
+    tune p g = Ok o ->
+    out_init_metric o = gmv g /\
+    out_reported o = (if out_multi o then RList (map gmv (out_graphs o))
+                      else match out_graphs o with [fg] => RMetric (gmv fg) | _ => RNone end).
+  Proof.
+    intros H. destruct (tune_shape obj sp cfg p g o H) as [I S]. split; [exact I|].
+    destruct (out_multi o).
+    - destruct S as [iv [_ [_ [C _]]]]. exact C.
+    - destruct S as [fg [A [B _]]]. now rewrite A.
+  Qed.
+
+  (* 5. nothing to tune *)
+  Lemma existsb_false_nth {A} (f : A -> bool) l i a : existsb f l = false -> nth_error l i = Some a -> f a = false.
+  Proof.
+    intros H Hn. destruct (f a) eqn:E; [|reflexivity].
+    assert (existsb f l = true) by (apply existsb_exists; exists a; split; [eapply nth_error_In; eauto|exact E]). congruence.
+  Qed.
+
+  Lemma seq_loop_untunable g order : forall steps st fg,
+    has_params sp g = false -> ss_graph st = g ->
+    seq_loop obj sp order steps st = Ok fg -> fg = ss_final st.
+  Proof.
+    induction order as [|i order IH]; intros steps st fg Hn Hg; simpl.
+    - intros H. now injection H as <-.
+    - rewrite Hg. destruct (nth_error g i) as [n|] eqn:E; [|discriminate].
+      rewrite (existsb_false_nth _ _ _ _ Hn E). simpl. intros H. eapply IH; eauto.
+  Qed.
+
+  Lemma run_tune_nothing p g t :
+    has_params sp g = false -> run_tune obj sp cfg p (gmv g) g = Ok t -> t = TOne g \/ t = TMany [g].
+  Proof.
+    intros Hn. unfold run_tune. destruct (c_kind cfg).
+    - unfold tune_simultaneous, check_possible. rewrite Hn. simpl.
+      destruct (is_multi (gmv g) && true); intros H; injection H as <-; now left.
+    - unfold tune_sequential.
+      destruct (negb (is_nil g) && check_possible cfg false true true (gmv g)).
+      + destruct (seq_loop obj sp (nodes_order inverse_node_order (List.length g)) (p_steps p)
+                    {| ss_graph := g; ss_final := g; ss_best := gmv g |}) as [fg|e] eqn:E; [|discriminate].
+        apply (seq_loop_untunable g) in E; [|exact Hn|reflexivity]. simpl in E. subst. intros H. injection H as <-. now left.
+      + intros H. injection H as <-. now left.
+    - unfold tune_lib, check_possible. rewrite Hn. simpl.
+      destruct (is_multi (gmv g) && false); destruct (Nat.ltb 1 (metric_len (gmv g)));
+        intros H; injection H as <-; auto.
+    - unfold tune_lib, check_possible. rewrite Hn. simpl.
+      destruct (is_multi (gmv g) && false); destruct (Nat.ltb 1 (metric_len (gmv g)));
+        intros H; injection H as <-; auto.
+  Qed.
+
+  Theorem nothing_to_tune_unchanged p g o :
+    has_params sp g = false -> tune p g = Ok o -> Forall (fun fg => fg = g) (out_graphs o).
+  Proof.
+    intros Hn. unfold Tuner.tune.
+    destruct (run_tune obj sp cfg p (gmv g) g) as [t|e] eqn:Er; [|discriminate].
+    destruct (run_tune_nothing p g t Hn Er) as [-> | ->].
+    - destruct (multi_mode cfg (gmv g)); [discriminate|].
+      destruct (single_final_check obj cfg g (gmv g) g) as [[fg r]|e] eqn:Ef; [|discriminate].
+      intros H. injection H as <-. simpl.
+      destruct (single_final_spec obj cfg g g fg r Ef) as [[A|A] _]; subst; constructor; auto.
+    - destruct (multi_mode cfg (gmv g)); [|discriminate].
+      destruct (multi_final_check obj g (gmv g) [g]) as [[fgs r]|e] eqn:Ef; [|discriminate].
+      intros H. injection H as <-. simpl.
+      destruct (multi_final_spec obj g [g] fgs r Ef) as [iv [_ [_ [_ F]]]].
+      eapply Forall_impl; [|exact F]. intros fg [[[A|[]]|A] _]; auto.
+  Qed.
+
+  (* ... and, for a scalar objective value of the input, tune() does not raise *)
+  Theorem nothing_to_tune_returns p g :
+    has_params sp g = false -> (match gmv g with MVec _ => False | _ => True end) ->
+    exists o, tune p g = Ok o /\ out_multi o = false /\ out_graphs o = [g] /\ out_reported o = RMetric (gmv g).
+  Proof.
+    intros Hn Hs.
+    assert (Hord : forall inv i, In i (nodes_order inv (List.length g)) -> nth_error g i <> None).
+    { intros inv i Hi. apply nth_error_Some. unfold nodes_order in Hi.
+      destruct inv; [apply in_rev in Hi|]; apply in_seq in Hi; lia. }
+    assert (R : run_tune obj sp cfg p (gmv g) g = Ok (TOne g)).
+    { unfold run_tune. destruct (c_kind cfg) as [|inv| |].
+      - unfold tune_simultaneous, check_possible. rewrite Hn. simpl. destruct (is_multi (gmv g) && true); reflexivity.
+      - unfold tune_sequential.
+        destruct (negb (is_nil g) && check_possible cfg false true true (gmv g)); [|reflexivity].
+        assert (L : forall order steps st, ss_graph st = g ->
+                      (forall i, In i order -> nth_error g i <> None) ->
+                      seq_loop obj sp order steps st = Ok (ss_final st)).
+        { induction order as [|i order IH]; intros steps st Hg Hi; simpl; [reflexivity|].
+          rewrite Hg. destruct (nth_error g i) as [n|] eqn:E; [|exfalso; apply (Hi i); [now left|exact E]].
+          rewrite (existsb_false_nth _ _ _ _ Hn E). simpl. apply IH; [exact Hg|]. intros j Hj. apply Hi. now right. }
+        rewrite L; [reflexivity|reflexivity|]. intros i Hi. apply (Hord inv). exact Hi.
+      - unfold tune_lib, check_possible. rewrite Hn. simpl.
+        assert (Nat.ltb 1 (metric_len (gmv g)) = false) as ->.
+        { destruct (gmv g); try reflexivity. contradiction. }
+        destruct (is_multi (gmv g) && false); reflexivity.
+      - unfold tune_lib, check_possible. rewrite Hn. simpl.
+        assert (Nat.ltb 1 (metric_len (gmv g)) = false) as ->.
+        { destruct (gmv g); try reflexivity. contradiction. }
+        destruct (is_multi (gmv g) && false); reflexivity. }
+    unfold Tuner.tune. rewrite R.
+    assert (M : multi_mode cfg (gmv g) = false).
+    { unfold multi_mode, is_multi. destruct (c_kind cfg); try reflexivity; destruct (gmv g); try reflexivity; contradiction. }
+    rewrite M. unfold single_final_check.
+    destruct (gmv g) as [|q|l] eqn:Eg; [| |contradiction].
+    - eexists. split; [reflexivity|]. simpl. auto.
+    - destruct (Qle_bool q (threshold cfg q)); eexists; (split; [reflexivity|]); simpl; auto.
+  Qed.
+
+  (* ---- the known findings as theorems of the faithful model ---- *)
+  (* SimultaneousTuner / SequentialTuner on a multi-objective objective always raise *)
+  Theorem multiobj_unsupported_raises p g :
+    (c_kind cfg = Simultaneous \/ exists inv, c_kind cfg = Sequential inv) ->
+    is_multi (gmv g) = true -> exists e, tune p g = Raise e.
+  Proof.
+    intros K Hm.
+    assert (R : run_tune obj sp cfg p (gmv g) g = Ok (TOne g)).
+    { unfold run_tune. destruct K as [K|[inv K]]; rewrite K.
+      - unfold tune_simultaneous, check_possible. rewrite Hm. reflexivity.
+      - unfold tune_sequential, check_possible. rewrite Hm. simpl. now rewrite andb_false_r. }
+    unfold Tuner.tune. rewrite R.
+    assert (M : multi_mode cfg (gmv g) = false) by (unfold multi_mode; destruct K as [K|[inv K]]; now rewrite K).
+    rewrite M. unfold single_final_check. unfold is_multi in Hm.
+    destruct (gmv g); try discriminate. eauto.
+  Qed.
+
+  (* IOptTuner with something to tune but no continuous parameter always raises *)
+  Theorem iopt_no_float_raises p g :
+    c_kind cfg = IOpt -> has_params sp g = true -> has_float sp g = false -> exists e, tune p g = Raise e.
+  Proof.
+    intros K Hp Hf. unfold Tuner.tune, run_tune. rewrite K. unfold tune_lib, check_possible.
+    rewrite Hp, Hf. simpl. rewrite andb_false_r. simpl. eauto.
+  Qed.
+End Theorems.
+
+(* ---------------------------------------------------------------------------------- *)
+(* reflection of the oracle's sub-predicates                                           *)
+(* ---------------------------------------------------------------------------------- *)
+Lemma nat_list_eqb_iff (a b : list nat) :
+  Nat.eqb (List.length a) (List.length b) && forallb (fun xy => Nat.eqb (fst xy) (snd xy)) (combine a b) = true
+  <-> a = b.
+Proof.
+  revert b. induction a as [|x a IH]; intros [|y b]; simpl; split; intros H; try discriminate; try reflexivity.
+  - apply andb_true_iff in H. destruct H as [L H]. apply andb_true_iff in H. destruct H as [E H].
+    apply Nat.eqb_eq in E. subst. f_equal. apply IH. now rewrite L, H.
+  - injection H as -> ->.
+    assert (R : b = b) by reflexivity. apply IH in R. apply andb_true_iff in R. destruct R as [R1 R2].
+    rewrite R1, R2, Nat.eqb_refl. reflexivity.
+Qed.
+
+Lemma skel_eqb_iff a b : skel_eqb a b = true <-> skel a = skel b.
+Proof.
+  unfold skel_eqb, skel. split.
+  - intros H. apply andb_true_iff in H. destruct H as [H P]. apply andb_true_iff in H. destruct H as [U N].
+    apply Nat.eqb_eq in U. apply String.eqb_eq in N. apply nat_list_eqb_iff in P. congruence.
+  - intros H. injection H as U N P. rewrite U, N, P, Nat.eqb_refl, String.eqb_refl. simpl.
+    now apply nat_list_eqb_iff.
+Qed.
+
+(* the oracle's structure test decides equality of uids, names and parent lists, node by node *)
+Lemma same_structure_b_iff g g' : same_structure_b g g' = true <-> map skel g = map skel g'.
+Proof.
+  unfold same_structure_b. revert g'. induction g as [|n g IH]; intros [|n' g']; cbn [map forallb2]; split; intros H;
+    try discriminate; try reflexivity.
+  - apply andb_true_iff in H. destruct H as [A B]. apply skel_eqb_iff in A. apply IH in B. congruence.
+  - apply andb_true_iff. split; [apply skel_eqb_iff|apply IH]; congruence.
+Qed.
+
+Lemma dget_dkeys d k : dget d k <> None -> In k (dkeys d).
+Proof.
+  induction d as [|[k' v] t IH]; simpl; [congruence|].
+  destruct (String.eqb k' k) eqn:E; [apply String.eqb_eq in E; now left|right; auto].
+Qed.
+
+(* the oracle's "outside the space untouched" test covers every key *)
+Lemma outside_untouched_node_sound sp nm a b :
+  outside_untouched_node sp nm a b = true ->
+  forall k, in_space sp nm k = false -> opt_value_eqb (dget a k) (dget b k) = true.
+Proof.
+  unfold outside_untouched_node. intros H k Hk. rewrite forallb_forall in H.
+  destruct (dget a k) as [va|] eqn:Ea.
+  - assert (In k (dkeys a ++ dkeys b)) as I by (apply in_or_app; left; apply dget_dkeys; congruence).
+    specialize (H k I). rewrite Hk, Ea in H. exact H.
+  - destruct (dget b k) as [vb|] eqn:Eb; [|reflexivity].
+    assert (In k (dkeys a ++ dkeys b)) as I by (apply in_or_app; right; apply dget_dkeys; congruence).
+    specialize (H k I). rewrite Hk, Ea, Eb in H. exact H.
+Qed.
+
+(* metric_le is <= on the extended reals (None = +infinity) *)
+Lemma metric_le_fin a b : metric_le (MFin a) (MFin b) = true <-> a <= b.
+Proof. simpl. apply Qle_bool_iff. Qed.
